@@ -90,8 +90,12 @@ func runC17(r *Report) {
 			default:
 				return
 			}
-			// ignore `limit > 0` enabling tests
-			if _, isC := ConstInt(bo.Y); isC {
+			// `limit > 0` enabling tests: the switch is "a positive limit is enforced" (a test against
+			// any other constant leaves small limits unenforced)
+			if k, isC := ConstInt(bo.Y); isC {
+				if l := limitOf(bo.X); l != "" {
+					r.Ob("R-C17-1", bo.Pos(), k == 0 && (bo.Op == token.GTR || bo.Op == token.LEQ), fmt.Sprintf("the enabling test of limit %s compares with %d using %s (want `> 0` / `<= 0`: every positive limit is enforced)", l, k, bo.Op), r.P.FuncName(f), "limit-enabled-when-positive:"+l)
+				}
 				return
 			}
 			if _, isC := ConstInt(bo.X); isC {
@@ -466,6 +470,40 @@ func checkLenLimit(r *Report, f *ssa.Function, cmp *ssa.BinOp, mapField, limit s
 		kc := nearestLock(cmp)
 		same := ki != nil && kc == ki && held(i) && held(cmp)
 		if same {
+			// the count compared is the population BEFORE this insertion: the request at count == limit
+			// must be refused (`len >= limit`); `len > limit` admits one too many
+			lenOnX := false
+			if c, _ := CallOfValue(cmp.X); c != nil {
+				if b, ok := c.Call.Value.(*ssa.Builtin); ok && b.Name() == "len" {
+					lenOnX = true
+				}
+			}
+			refusesAtLimit := (lenOnX && cmp.Op == token.GEQ) || (!lenOnX && cmp.Op == token.LEQ)
+			if !refusesAtLimit {
+				r.Fail("R-C17-1", cmp.Pos(), "limit "+limit+": the deciding comparison is `"+cmp.Op.String()+"`: a request arriving when len("+mapField+") equals the limit is admitted (limit+1 members)", key...)
+				continue
+			}
+			// every admitted member is counted: the insertion into the counted map is on every success path
+			counted := true
+			for _, ret := range Returns(f) {
+				if RetErrKind(ret) != "nil" {
+					continue
+				}
+				if ReachesWithout(f, ret, func(x ssa.Instruction) bool {
+					mu, ok := x.(*ssa.MapUpdate)
+					if !ok {
+						return false
+					}
+					_, fld, _, ok := FieldOf(mu.Map)
+					return ok && fld == mapField
+				}) {
+					counted = false
+				}
+			}
+			if !counted {
+				r.Fail("R-C17-1", cmp.Pos(), "limit "+limit+" is compared with len("+mapField+"), but a success return is reachable without inserting into "+mapField+": members admitted on that path are never counted", key...)
+				continue
+			}
 			if u := unlockBetween(cmp, i); u != nil {
 				r.Fail("R-C17-1", u.Pos(), "limit "+limit+": the registry lock is released between the comparison with len("+mapField+") and the insertion (the cap must be re-decided after re-acquiring: concurrent admissions both pass the stale comparison)", key...)
 				continue
